@@ -49,7 +49,7 @@ package relayer_manager
 //@   ensures[c36-onlyapproved] !fired ==> forall a common.Address :: Store[relayerKey(a)] == old(Store)[relayerKey(a)]
 
 //@ func ApproveRemoveRelayer
-//@   property C33, C18, C32
+//@   property C33, C18, C32, C36
 //@   mode abstract
 //@   requires native != nil && native.tx != nil
 //@   modifies Store
@@ -67,3 +67,8 @@ package relayer_manager
 //@   ensures[c33-requested] fired ==> old(Store)[rmKey("relayerRemove", cid)] != None
 //@   ensures[c36-onlyapproved] !fired ==> forall a common.Address :: Store[relayerKey(a)] == old(Store)[relayerKey(a)]
 //@   loop 1 invariant Store[rmKey("relayerRemove", cid)] == old(Store)[rmKey("relayerRemove", cid)]
+//@   -- C36: an approved removal takes effect: every relayer of the approved list loses its registry record (the one the pool's sender gate reads)
+//@   ghost var gl []common.Address
+//@   set after "relayerListParam, err := getRelayerRemove(native, params.ID)" : gl := relayerListParam.AddressList
+//@   loop 1 invariant forall q int :: 0 <= q && q < it1 ==> Store[relayerKey(relayerListParam.AddressList[q])] == None
+//@   ensures[c36-removed] r1 == nil && fired ==> forall q int :: 0 <= q && q < len(gl) ==> Store[relayerKey(gl[q])] == None
